@@ -53,6 +53,14 @@ def run(ctx):
         if r.random() < 0.5:
             idx += idx[: r.randint(1, len(idx))]
         q = rows.take(np.array(idx))
+        fresh_rows = None
+        if getattr(fam, "fresh", None) is not None and r.random() < 0.6:
+            # rows never trained on (possibly far from every category: negative Hypersphere/Ellipsoid activations)
+            fq = fam.fresh(r, r.randint(1, 6), floats2=r.random() < 0.3)
+            fresh_rows = fq.tolist()
+            q = q.concat(fq)
+            cov.hit("fresh-query-rows")
+        nq = len(q)
         before = fam.snap(est, model_only=False)
         try:
             p = as_cols(fam.predict(est, q))
@@ -67,17 +75,17 @@ def run(ctx):
                 ctx.issue("violation", f"{name}.predict:{exc_enum(e)}", f"predict raised {e!r} on training rows", dict(desc, query=idx))
             continue
         after = fam.snap(est, model_only=False)
-        rep = dict(desc, query=idx)
+        rep = dict(desc, query=idx, fresh_rows=fresh_rows)
         if not eq_snap(before, after):
             ctx.issue("violation", f"{name}.predict:mutates-model", "canonical snapshot differs after predict", rep)
         # permutation
-        perm = list(range(len(idx)))
+        perm = list(range(nq))
         r.shuffle(perm)
         p2 = as_cols(fam.predict(est, q.take(np.array(perm))))
         if not np.array_equal(p2, p[perm]):
             ctx.issue("violation", f"{name}.predict:row-order-dependent", f"permuted query gives {p2.tolist()} expected {p[perm].tolist()}", rep)
         # batching: row by row
-        singles = np.vstack([as_cols(fam.predict(est, q.sl(k, k + 1))) for k in range(len(idx))])
+        singles = np.vstack([as_cols(fam.predict(est, q.sl(k, k + 1))) for k in range(nq)])
         if not np.array_equal(singles, p):
             ctx.issue("violation", f"{name}.predict:batch-dependent", f"row-by-row {singles.tolist()} vs batch {p.tolist()}", rep)
         # repetition
@@ -100,7 +108,7 @@ def run(ctx):
             # recompute the arg-max from the public activation function
             owner = est.base_module if name in ("TopoART", "CVIART") else est
             X = q.arrs["X"]
-            for k in range(len(idx)):
+            for k in range(nq):
                 with quiet():
                     T = [float(owner.category_choice(X[k], w, params=owner.params)[0]) for w in owner.W]
                 if any(np.isnan(T)):
@@ -136,9 +144,66 @@ def run(ctx):
                 if p[:, c].min() < 0 or p[:, c].max() > ld[:, c].max():
                     ctx.issue("violation", f"{name}.predict:out-of-range", f"level {c}: {p[:, c].tolist()} max trained {ld[:, c].max()}", rep)
         ncats = ncat if ncat is not None else 2
-        cov.case((name, fam.spec, desc["rows"], idx), ncats >= 2 and len(idx) >= 2)
+        cov.case((name, fam.spec, desc["rows"], idx, fresh_rows), ncats >= 2 and nq >= 2)
         cov.traces += 0
         if i < 3:
             cov.sample({"family": name, "spec": fam.spec, "query_rows": idx, "pred": p.tolist()})
+    negative_activations(ctx)
     e2e.base_histories(ctx, "C08", ctx.scale(150, 3000), ctx.scale(20, 80), fields=("labels",))
     e2e.smap_histories(ctx, "C08", ctx.scale(100, 2000), ctx.scale(16, 60))
+
+
+def negative_activations(ctx):
+    """models whose activation can be negative for every category (Hypersphere / Ellipsoid with a small r_hat and a
+    query farther than r_hat from every centre), bare and as channels of FusionART / A-side of SimpleARTMAP:
+    the prediction is still the first arg-max of the public activation function"""
+    from .. import specs
+    from ..impl import make
+    cov = ctx.cov
+    for i in range(ctx.scale(60, 1200)):
+        r = gen.rng_for(ctx.seed, "C08-neg", i)
+        host = ["bare", "FusionART", "FusionART", "SimpleARTMAP"][i % 4]
+        k = r.randint(1, 2) if host == "FusionART" else 1
+        chans = [r.choice(["HypersphereART", "EllipsoidART"]) for _ in range(k)]
+        ds = [r.randint(1, 3) for _ in range(k)]
+        sp = []
+        for c, dd in zip(chans, ds):
+            q = specs.elem_spec(r, c, dd)
+            q["r_hat"] = r.choice([0.125, 0.25, 0.5])
+            q["rho"] = r.choice([0.5, 0.75, 0.875])
+            sp.append(q)
+        n = r.randint(3, 10)
+        # training rows in one corner of the cube, queries in the opposite corner
+        Xtr = np.hstack([specs.elem_data(r, c, n, dd) * 0.25 for c, dd in zip(chans, ds)])
+        m = r.randint(2, 6)
+        Xq = np.hstack([1.0 - specs.elem_data(r, c, m, dd) * 0.25 for c, dd in zip(chans, ds)])
+        if host == "bare":
+            spec = sp[0]
+        elif host == "FusionART":
+            spec = {"cls": "FusionART", "modules": sp, "gamma_values": [1.0] if k == 1 else r.choice([[0.5, 0.5], [0.25, 0.75]]),
+                    "channel_dims": ds}
+        else:
+            spec = {"cls": "SimpleARTMAP", "module_a": sp[0]}
+        rep = {"spec": spec, "X": Xtr.tolist(), "query": Xq.tolist()}
+        try:
+            est = make(spec)
+            with quiet():
+                if host == "SimpleARTMAP":
+                    est.fit(Xtr, gen.labels(r, n, 2))
+                else:
+                    est.fit(Xtr)
+                p = np.asarray(est.predict_ab(Xq)[0] if host == "SimpleARTMAP" else est.predict(Xq))
+                owner = est.module_a if host == "SimpleARTMAP" else est
+                allneg = 0
+                for j, x in enumerate(Xq):
+                    T = [float(owner.category_choice(x, w, params=owner.params)[0]) for w in owner.W]
+                    if max(T) < 0:
+                        allneg += 1
+                    if int(p[j]) != int(np.argmax(T)):
+                        ctx.issue("violation", f"{host}({'+'.join(chans)}).predict:not-first-argmax",
+                                  f"row {j}: predicted {int(p[j])}, activations {T}", rep)
+                        break
+            cov.hit("all-activations-negative" if allneg else "some-activation-nonnegative")
+            cov.case(("neg", spec, rep["X"], rep["query"]), allneg > 0 and len(owner.W) >= 2)
+        except Exception as e:
+            ctx.issue("violation", f"{host}({'+'.join(chans)}).fit-or-predict:{exc_enum(e)}", repr(e), rep)
